@@ -52,6 +52,10 @@ Programs ==
      \* thread inserts and completes a later invalidate_all: the later call wins
      xaxa   |-> [cfg |-> Cf(2, None, None, FALSE),
                  progs |-> <<<<XA, G(1)>>, <<ADV(1), I(2,2,1), ADV(1), XA, G(1)>>>>],
+     \* two queued writes of one key, the first of which maintenance discards (the cache is full),
+     \* while another thread writes the key again
+     putback |-> [cfg |-> Cf(1, None, None, FALSE),
+                  progs |-> <<<<I(1,1,2), SY, I(1,3,1), I(1,4,1), SY, G(1)>>, <<I(2,1,1), G(1)>>>>],
      farw   |-> [cfg |-> Cf(1, None, None, FALSE),
                  progs |-> <<<<I(1,1,1), SY, ADV(1), I(1,3,2), X(1), G(2)>>, <<G(2), SY, G(2)>>>>],
      farx   |-> [cfg |-> Cf(2, 1, None, FALSE),
